@@ -271,6 +271,12 @@ MUTANTS = [
      "old": "            return InstanceState(decoded_data, instance_id, datetime.datetime.now(), timeout, step)",
      "new": "            os.remove(os.path.join(self.path, str(instance_uuid) + \".json\"))\n            return InstanceState(decoded_data, instance_id, datetime.datetime.now(), timeout, step)",
      "note": "loading consumes the file: a second crash before the next save loses the instance"},
+    {"id": "c20-integer-session-clock", "property": "C20", "file": B,
+     "old": "        starttime_ = float(starttime_)\n", "new": "",
+     "note": "reversal of 840053e"},
+    {"id": "c20-abandoned-stream-not-saved", "property": "C20", "file": S,
+     "old": "                yield \"]\"\n            except:\n                pass\n", "new": "                yield \"]\"\n            except Exception:\n                pass\n",
+     "note": "a tidied-up bare except: GeneratorExit (client gone) now skips the save after the loop"},
     # ---- C15
     {"id": "c15-undecorated-stop-instance", "property": "C15", "file": S,
      "old": "    @token_required\n    def _stop_instance_resource", "new": "    def _stop_instance_resource"},
